@@ -84,6 +84,12 @@ def integral_regression(
     x_hat = torch.sum(xv.view(1, 1, 1, -1) * cms, dim=[2, 3]) / z
     y_hat = torch.sum(yv.view(1, 1, -1, 1) * cms, dim=[2, 3]) / z
 
+    # The expectation is only guaranteed to lie inside the grid when all values are
+    # non-negative. Keep the estimate inside the grid (at its center if the maps have no
+    # mass) so that negative values cannot move it arbitrarily far away.
+    x_hat = torch.nan_to_num(x_hat, nan=xv.mean().item()).clamp(xv.min(), xv.max())
+    y_hat = torch.nan_to_num(y_hat, nan=yv.mean().item()).clamp(yv.min(), yv.max())
+
     return x_hat, y_hat
 
 
